@@ -178,7 +178,11 @@ CHECKS = {
         technique='TLA+ definitions + partition-law invariants checked by TLC; enumeration replayed into the code; law-level and definition-level TLC trace validation on parser-built documents'),
     'C06': dict(
         category='model_checking',
-        text='Custom.tla models the alias resolver (delete-while-compiling) with an explicit stack; TLC checks T-Total (termination under '
+        text='Parser.tla models parse_selectors over token kinds with an explicit stack of list frames (forgiving lists, relative lists, pending '
+             'combinators); TLC checks T-Total (bounded stack, one outcome, no stuck state, termination under fairness) and prints the predicted '
+             'outcome of every lexically possible token sequence of <= 3-4 tokens over 26 token kinds; each is concretised in two spellings and '
+             'compiled (outcome class gated; agreement with the prediction recorded: 31 144 of 31 144 on the repaired tree). '
+             'Custom.tla models the alias resolver (delete-while-compiling) with an explicit stack; TLC checks T-Total (termination under '
              'weak fairness, bounded stack, no name compiled twice) over every map of 3 names x {plain, refers-to-x, malformed, absent} and '
              'prints the predicted outcome, replayed into compile(\':--n\', custom=map) (+ malformed / case-colliding names). '
              'MC_C06_chars enumerates every string of <= 2-3 symbols over a 42-class character alphabet (incl. NUL, C0/C1, surrogates, '
@@ -186,7 +190,7 @@ CHECKS = {
              'with several representatives per class and compiled bare and inside 15 closed and unterminated contexts; oracle = outcome '
              'class {compiled, SelectorSyntaxError, NotImplementedError, KeyError only for case-colliding custom names}.',
         design_ref='§6 C06',
-        note='The tokenizer/parser itself is not yet modelled (no Lexer.tla): accept/reject predictions exist only for the alias resolver; '
+        note='The character-level tokenizer is not modelled (no Lexer.tla): the parser model works on token kinds; accept/reject agreement is drift, not a verdict; '
              'Unicode abstracted by classes; nesting depth tiny compared to the recursion budget.',
         technique='TLA+ resolver state machine with liveness checked by TLC; TLC-enumerated class strings and custom maps replayed into compile(); outcome-class oracle'),
     'C20': dict(
